@@ -19,6 +19,41 @@ pub(crate) fn stub_packet_size(_p: &codec::Packet, _limit: u32) -> usize {
     panic!("unreachable: Packet size reached from a PUBLISH-only harness")
 }
 
+/// Abstraction of the v5 encoder for harnesses whose subject is the connection state, not the
+/// byte layout (that is C01/C09): every successfully encoded item becomes a 4-byte summary
+/// `[first byte per MQTT 5 section 2.1.2, 2, packet id hi, lo]`; never fails. CBMC does not see the
+/// discriminant of `Encoded` as a constant, so with the real encoder every `io.encode` call
+/// expands all fifteen packet encoders.
+#[cfg(kani)]
+pub(crate) fn stub_encodev5(_c: &codec::Codec, item: Encoded, dst: &mut BytePages) -> Result<(), error::EncodeError> {
+    let (first, id): (u8, u16) = match &item {
+        Encoded::Packet(p) => match p {
+            Packet::PublishAck(a) => (0x40, a.packet_id.get()),
+            Packet::PublishReceived(a) => (0x50, a.packet_id.get()),
+            Packet::PublishRelease(a) => (0x62, a.packet_id.get()),
+            Packet::PublishComplete(a) => (0x70, a.packet_id.get()),
+            Packet::Subscribe(a) => (0x82, a.packet_id.get()),
+            Packet::SubscribeAck(a) => (0x90, a.packet_id.get()),
+            Packet::Unsubscribe(a) => (0xA2, a.packet_id.get()),
+            Packet::UnsubscribeAck(a) => (0xB0, a.packet_id.get()),
+            Packet::PingRequest => (0xC0, 0),
+            Packet::PingResponse => (0xD0, 0),
+            Packet::Disconnect(_) => (0xE0, 0),
+            Packet::Auth(_) => (0xF0, 0),
+            Packet::Connect(_) => (0x10, 0),
+            Packet::ConnectAck(_) => (0x20, 0),
+        },
+        Encoded::Publish(p, _) => (
+            0x30 | ((p.dup as u8) << 3) | (u8::from(p.qos) << 1) | (p.retain as u8),
+            p.packet_id.map_or(0, |x| x.get()),
+        ),
+        Encoded::PayloadChunk(_) => (0x00, 0),
+    };
+    dst.extend_from_slice(&[first, 2, (id >> 8) as u8, id as u8]);
+    std::mem::forget(item);
+    Ok(())
+}
+
 fn nz(v: u16) -> num::NonZeroU16 {
     vk::assume(v != 0);
     num::NonZeroU16::new(v).unwrap()
@@ -171,48 +206,60 @@ fn ack_step(nq: usize) {
 
 vharness! {
     //@ props: C06
+    //@ env: VERIF_MVEC_CAP=1
     //@ tier: quick
     //@ functions: v5::shared::MqttShared::{pkt_ack, pkt_ack_inner, close, clear_queues}, Ack::{packet_id, is_match, packet_type}, pool channel (model), VecDeque/HashSet (models), IoRef (model)
     //@ bounds: ONE acknowledgement (any of the 5 kinds, any non-zero id) against an arbitrary outstanding queue of exactly 0 sends (ids: u16 full width, pairwise distinct; each expecting any ack type); no parked waiters
     //@ assumes: representation invariant of the queue (distinct ids, id set == ids of the queue); every outstanding send has a reply channel (awaiting APIs)
     //@ mem: 16  timeout: 900
     //@ desc: ack routing step: a send completes successfully only with the ack of the type it expects carrying its id, and only the OLDEST send can complete; any other ack completes nothing, never panics, and ends the connection (close requested, every pending send resolves disconnected)
+    //@ stubs: yes
+    #[kani::stub(<codec::Codec as Encoder>::encodev, stub_encodev5)]
     fn sh5_ack_step_n0() unwind(5) {
         ack_step(0)
     }
 }
 vharness! {
     //@ props: C06
+    //@ env: VERIF_MVEC_CAP=1
     //@ tier: quick
     //@ functions: v5::shared::MqttShared::{pkt_ack, pkt_ack_inner, close, clear_queues}, Ack::{packet_id, is_match, packet_type}, pool channel (model), VecDeque/HashSet (models), IoRef (model)
     //@ bounds: ONE acknowledgement (any of the 5 kinds, any non-zero id) against an arbitrary outstanding queue of exactly 1 sends (ids: u16 full width, pairwise distinct; each expecting any ack type); no parked waiters
     //@ assumes: representation invariant of the queue (distinct ids, id set == ids of the queue); every outstanding send has a reply channel (awaiting APIs)
     //@ mem: 16  timeout: 900
     //@ desc: ack routing step: a send completes successfully only with the ack of the type it expects carrying its id, and only the OLDEST send can complete; any other ack completes nothing, never panics, and ends the connection (close requested, every pending send resolves disconnected)
+    //@ stubs: yes
+    #[kani::stub(<codec::Codec as Encoder>::encodev, stub_encodev5)]
     fn sh5_ack_step_n1() unwind(5) {
         ack_step(1)
     }
 }
 vharness! {
     //@ props: C06
+    //@ env: VERIF_MVEC_CAP=1
     //@ tier: quick
     //@ functions: v5::shared::MqttShared::{pkt_ack, pkt_ack_inner, close, clear_queues}, Ack::{packet_id, is_match, packet_type}, pool channel (model), VecDeque/HashSet (models), IoRef (model)
     //@ bounds: ONE acknowledgement (any of the 5 kinds, any non-zero id) against an arbitrary outstanding queue of exactly 2 sends (ids: u16 full width, pairwise distinct; each expecting any ack type); no parked waiters
     //@ assumes: representation invariant of the queue (distinct ids, id set == ids of the queue); every outstanding send has a reply channel (awaiting APIs)
     //@ mem: 16  timeout: 900
     //@ desc: ack routing step: a send completes successfully only with the ack of the type it expects carrying its id, and only the OLDEST send can complete; any other ack completes nothing, never panics, and ends the connection (close requested, every pending send resolves disconnected)
+    //@ stubs: yes
+    #[kani::stub(<codec::Codec as Encoder>::encodev, stub_encodev5)]
     fn sh5_ack_step_n2() unwind(5) {
         ack_step(2)
     }
 }
 vharness! {
     //@ props: C06
+    //@ env: VERIF_MVEC_CAP=1
     //@ tier: quick
     //@ functions: v5::shared::MqttShared::{pkt_ack, pkt_ack_inner, close, clear_queues}, Ack::{packet_id, is_match, packet_type}, pool channel (model), VecDeque/HashSet (models), IoRef (model)
     //@ bounds: ONE acknowledgement (any of the 5 kinds, any non-zero id) against an arbitrary outstanding queue of exactly 3 sends (ids: u16 full width, pairwise distinct; each expecting any ack type); no parked waiters
     //@ assumes: representation invariant of the queue (distinct ids, id set == ids of the queue); every outstanding send has a reply channel (awaiting APIs)
     //@ mem: 16  timeout: 900
     //@ desc: ack routing step: a send completes successfully only with the ack of the type it expects carrying its id, and only the OLDEST send can complete; any other ack completes nothing, never panics, and ends the connection (close requested, every pending send resolves disconnected)
+    //@ stubs: yes
+    #[kani::stub(<codec::Codec as Encoder>::encodev, stub_encodev5)]
     fn sh5_ack_step_n3() unwind(5) {
         ack_step(3)
     }
@@ -319,11 +366,14 @@ macro_rules! readiness_inst {
     ($name:ident, $n:expr) => {
         vharness! {
             //@ props: C05 C13
+            //@ env: VERIF_MVEC_CAP=1
             //@ tier: quick
             //@ functions: v5::shared::MqttShared::{wait_readiness, is_ready, credit, enable_wr_backpressure}
             //@ bounds: literal number of outstanding sends per instance (0..=3); send limit: usize full width; back-pressure flag any
             //@ assumes: none
             //@ desc: admission step: a sender is parked iff outstanding >= limit or write back-pressure is on; credit()/is_ready() agree with that; parking changes nothing else
+            //@ stubs: yes
+            #[kani::stub(<codec::Codec as Encoder>::encodev, stub_encodev5)]
             fn $name() unwind(5) {
                 readiness_step($n)
             }
@@ -381,12 +431,15 @@ macro_rules! ack_wake_inst {
     ($name:ident, $w:expr) => {
         vharness! {
             //@ props: C13 C05
+            //@ env: VERIF_MVEC_CAP=1
             //@ tier: quick
             //@ functions: v5::shared::MqttShared::{pkt_ack, pkt_ack_inner} (wake loops), pool channel (model)
             //@ bounds: one outstanding send (any expected ack type, any id) correctly acknowledged; literal number of parked senders per instance (1..=3), each live or cancelled (dropped future); limit and back-pressure flag any
             //@ assumes: none beyond the queue invariant
             //@ mem: 12  timeout: 900
             //@ desc: one wake-up per freed slot: a final acknowledgement releases exactly the FIRST live parked sender (cancelled ones are skipped, not counted), PUBREC releases nobody, nobody is failed, live senders not released stay queued
+            //@ stubs: yes
+            #[kani::stub(<codec::Codec as Encoder>::encodev, stub_encodev5)]
             fn $name() unwind(6) {
                 ack_wake_step($w)
             }
@@ -436,12 +489,15 @@ macro_rules! wrb_off_inst {
     ($name:ident, $n:expr, $w:expr) => {
         vharness! {
             //@ props: C13 C05
+            //@ env: VERIF_MVEC_CAP=1
             //@ tier: quick
             //@ functions: v5::shared::MqttShared::{disable_wr_backpressure, enable_wr_backpressure}, pool channel (model)
             //@ bounds: literal outstanding sends (0..=1) and parked senders (2) per instance, each parked sender live or cancelled; streamed-send waiter absent / live / cancelled; limit: usize full width
             //@ assumes: none
             //@ mem: 12  timeout: 900
             //@ desc: back-pressure lifts: the flag clears, a paused streamed send resumes, and the free window slots (limit - outstanding) are handed to live parked senders in FIFO order: never more than free slots, and no live sender stays parked while a slot is free
+            //@ stubs: yes
+            #[kani::stub(<codec::Codec as Encoder>::encodev, stub_encodev5)]
             fn $name() unwind(6) {
                 wrb_off_step($n, $w)
             }
@@ -467,12 +523,15 @@ fn set_cap_step(w: usize) {
 }
 vharness! {
     //@ props: C05 C13
+    //@ env: VERIF_MVEC_CAP=1
     //@ tier: quick
     //@ functions: v5::shared::MqttShared::set_cap
     //@ bounds: connection set-up state (nothing outstanding), 3 senders parked before the limit was known (each live or cancelled), new limit 0..=4
     //@ assumes: set_cap is called with nothing outstanding (its call sites: right after the handshake)
     //@ mem: 12  timeout: 900
     //@ desc: the limit becomes known: at most `limit` live parked senders are released, FIFO, none stays parked while a slot is free
+    //@ stubs: yes
+    #[kani::stub(<codec::Codec as Encoder>::encodev, stub_encodev5)]
     fn sh5_set_cap_w3() unwind(7) {
         set_cap_step(3)
     }
@@ -482,6 +541,7 @@ vharness! {
 // identifiers and registration (C06)
 vharness! {
     //@ props: C06
+    //@ env: VERIF_MVEC_CAP=1
     //@ tier: quick
     //@ functions: v5::shared::MqttShared::{next_id, set_publish_id}
     //@ bounds: id counter: every u16 value the code can store (0..=65534)
@@ -609,6 +669,7 @@ macro_rules! register_inst {
     ($name:ident, $n:expr) => {
         vharness! {
             //@ props: C06
+            //@ env: VERIF_MVEC_CAP=1
             //@ tier: quick
             //@ functions: v5::shared::MqttShared::{wait_response, wait_publish_response, enable_streaming, check_streaming}, v5 Codec::encodev (real, through the IoRef model)
             //@ bounds: literal number of outstanding sends per instance (0..=2, ids u16 full width, distinct); new send: any non-zero id, any expected ack type; PUBLISH with a complete 2-byte payload or streamed (declared size u32 full width) or SUBSCRIBE-style registration; peer Maximum Packet Size unlimited or 8 (encode fails)
@@ -618,6 +679,8 @@ macro_rules! register_inst {
             //@ desc: registering a send: an identifier still in use is refused (PacketIdInUse) and never queued twice; a successful registration appends exactly one entry at the back, reserves the id, writes exactly one PUBLISH; a send that fails locally leaves no entry, no reserved id, no bytes and no streaming state behind
             #[kani::stub(<codec::Packet as codec::EncodeLtd>::encode, stub_packet_encode)]
             #[kani::stub(<codec::Packet as codec::EncodeLtd>::encoded_size, stub_packet_size)]
+            //@ stubs: yes
+            #[kani::stub(<codec::Codec as Encoder>::encodev, stub_encodev5)]
             fn $name() unwind(5) {
                 register_step($n)
             }
@@ -626,3 +689,235 @@ macro_rules! register_inst {
 }
 register_inst!(sh5_register_n0, 0);
 register_inst!(sh5_register_n2, 2);
+
+// =============================================================================================
+// QoS 2 exchanges (C14)
+fn push_out(sh: &MqttShared, id: num::NonZeroU16, tp: AckType) -> pool::Receiver<Ack> {
+    let (tx, rx) = sh.pool.queue.channel();
+    let mut q = sh.queues.borrow_mut();
+    q.inflight.push_back((id, Some(tx), tp));
+    q.inflight_ids.insert(id);
+    rx
+}
+fn rel(id: num::NonZeroU16) -> codec::PublishAck2 {
+    codec::PublishAck2 { packet_id: id, ..Default::default() }
+}
+fn is_ack(rx: &pool::Receiver<Ack>, kind: AckType, id: num::NonZeroU16) -> bool {
+    peek(rx) == Some(Ok((kind, id)))
+}
+
+/// PUBREC then release, with `nb` (literal 0/1) other outstanding sends queued behind A
+fn qos2_rec_rel(nb: usize) {
+    vio::with_io(move |io| {
+        let sh = new_shared(io);
+        sh.cap.set(vk::any_usize());
+        let a = nz(vk::any_u16());
+        let b = nz(vk::any_u16());
+        vk::assume(a != b);
+        let rx_a = push_out(&sh, a, AckType::Receive);
+        let mut rx_b = None;
+        if nb > 0 {
+            rx_b = Some(push_out(&sh, b, AckType::Publish));
+        }
+        // PUBREC(a): the sender obtains the receipt, the id stays in use, the exchange now waits for PUBCOMP
+        assert!(sh.pkt_ack(mk_ack(AckType::Receive, a)).is_ok());
+        assert!(is_ack(&rx_a, AckType::Receive, a));
+        {
+            let q = sh.queues.borrow();
+            assert!(q.inflight_ids.contains(&a));
+            assert!(q.inflight.len() == 1 + nb);
+            // sends queued behind A keep their place in front of A's PUBCOMP entry
+            if nb > 0 {
+                assert!(q.inflight.get(0).unwrap().0 == b, "PUBREC reordered the sends that the peer acknowledges next");
+            }
+            let last = q.inflight.get(nb).unwrap();
+            assert!(last.0 == a && last.2 == AckType::Complete);
+        }
+        // release: exactly one PUBREL carrying a
+        let n0 = io.frames();
+        let rx_c = match sh.release_publish(rel(a)) {
+            Ok(rx) => rx,
+            Err(_) => { assert!(false, "release refused"); return; }
+        };
+        assert!(io.frames() == n0 + 1, "release did not write exactly one packet");
+        assert!(io.frame_first(n0) == 0x62 && io.frame_id(n0) == a.get(), "release wrote something other than PUBREL for its own id");
+        assert!(peek(&rx_c).is_none());
+        // a second release of the same receipt (e.g. by a drop handler) is refused and writes nothing
+        assert!(sh.release_publish(rel(a)).is_err());
+        assert!(io.frames() == n0 + 1, "a second PUBREL was written for one receipt");
+        // the completion channel handed out is the one the PUBCOMP entry will complete
+        let entry = {
+            let mut q = sh.queues.borrow_mut();
+            let mut e = q.inflight.pop_front();
+            if nb > 0 {
+                e = q.inflight.pop_front();
+            }
+            e
+        };
+        let (_, tx, _) = entry.unwrap();
+        assert!(tx.unwrap().send(mk_ack(AckType::Complete, a)).is_ok(), "completion receiver already dropped");
+        assert!(is_ack(&rx_c, AckType::Complete, a), "release returned a receiver that is not connected to its own PUBCOMP entry");
+        assert!(!io.shutdown_requested());
+        std::mem::forget((rx_a, rx_b, rx_c));
+        std::mem::forget(sh);
+    })
+}
+macro_rules! qos2_rec_rel_inst {
+    ($name:ident, $nb:expr) => {
+        vharness! {
+            //@ props: C14 C06
+            //@ env: VERIF_MVEC_CAP=1
+            //@ tier: quick
+            //@ functions: v5::shared::MqttShared::{pkt_ack, pkt_ack_inner (PUBREC branch), release_publish}, pool channel (model)
+            //@ bounds: one exactly-once send (any id) with a literal number (0/1) of other sends queued behind it (any other id)
+            //@ assumes: queue invariant; v5 encoder abstracted to first byte + packet id (decided by C01/C09)
+            //@ mem: 16  timeout: 1200
+            //@ stubs: yes
+            //@ desc: PUBREC delivers the receipt to its sender, keeps the id reserved and re-queues the exchange BEHIND the sends the peer acknowledges next; release writes exactly one PUBREL with its own id and returns the receiver its own PUBCOMP will complete; a second release writes nothing
+            #[kani::stub(<codec::Codec as Encoder>::encodev, stub_encodev5)]
+            fn $name() unwind(5) {
+                qos2_rec_rel($nb)
+            }
+        }
+    };
+}
+qos2_rec_rel_inst!(sh5_qos2_rec_rel_b0, 0);
+qos2_rec_rel_inst!(sh5_qos2_rec_rel_b1, 1);
+
+vharness! {
+    //@ props: C14 C06
+    //@ env: VERIF_MVEC_CAP=1
+    //@ tier: quick
+    //@ functions: v5::shared::MqttShared::{pkt_ack, pkt_ack_inner (PUBCOMP branch)}
+    //@ bounds: one exactly-once send waiting for PUBCOMP (any id), already released or not (the pending-release slot full or empty); one parked sender (live or cancelled)
+    //@ assumes: queue invariant
+    //@ mem: 16  timeout: 1200
+    //@ stubs: yes
+    //@ desc: PUBCOMP completes the releasing task's receiver with that PUBCOMP, frees the id and the window slot (one parked sender released), leaves nothing behind in the pending-release slot
+    #[kani::stub(<codec::Codec as Encoder>::encodev, stub_encodev5)]
+    fn sh5_qos2_comp() unwind(5) {
+        vio::with_io(move |io| {
+            let sh = new_shared(io);
+            sh.cap.set(vk::any_usize());
+            let a = nz(vk::any_u16());
+            let (tx, rx_c) = sh.pool.queue.channel();
+            let released = vk::any_bool();
+            let mut held = None;
+            {
+                let mut q = sh.queues.borrow_mut();
+                q.inflight.push_back((a, Some(tx), AckType::Complete));
+                q.inflight_ids.insert(a);
+                if released {
+                    held = Some(rx_c);
+                } else {
+                    q.rx = Some(rx_c);
+                }
+            }
+            let rxs = arb_waiters(&sh, 1);
+            assert!(sh.pkt_ack(mk_ack(AckType::Complete, a)).is_ok());
+            if let Some(rx) = held.as_ref() {
+                assert!(is_ack(rx, AckType::Complete, a), "exactly-once send not completed by its own PUBCOMP");
+            }
+            let q = sh.queues.borrow();
+            assert!(q.rx.is_none(), "stale completion receiver left in the pending-release slot");
+            assert!(!q.inflight_ids.contains(&a) && q.inflight.len() == 0);
+            drop(q);
+            check_wakes(&sh, &rxs, 1, 1);
+            std::mem::forget((held, rxs));
+            std::mem::forget(sh);
+        })
+    }
+}
+
+vharness! {
+    //@ props: C14
+    //@ env: VERIF_MVEC_CAP=1
+    //@ tier: quick
+    //@ functions: v5::shared::MqttShared::{pkt_ack_inner (PUBREC branch), release_publish} (the single pending-release slot `rx`)
+    //@ bounds: two concurrently outstanding exactly-once sends (any distinct ids): a has received its PUBREC and is not yet released when PUBREC(b) arrives
+    //@ assumes: queue invariant
+    //@ mem: 16  timeout: 1200
+    //@ stubs: yes
+    //@ finding: known K4: the completion receiver of a PUBREC'd send is parked in ONE Option slot (`MqttSharedQueues.rx`); a second PUBREC overwrites (drops) it
+    //@ desc: PUBREC for a second exactly-once send while the first is not yet released: releasing a must still write PUBREL(a) and return the receiver of a's own PUBCOMP; releasing b likewise
+    #[kani::stub(<codec::Codec as Encoder>::encodev, stub_encodev5)]
+    fn sh5_qos2_pair() unwind(5) {
+        vio::with_io(move |io| {
+            let sh = new_shared(io);
+            sh.cap.set(vk::any_usize());
+            let a = nz(vk::any_u16());
+            let b = nz(vk::any_u16());
+            vk::assume(a != b);
+            // state after PUBREC(a): [b: waits PUBREC, a: waits PUBCOMP], a's completion receiver pending release
+            let rx_b = push_out(&sh, b, AckType::Receive);
+            let (tx_ca, rx_ca) = sh.pool.queue.channel();
+            {
+                let mut q = sh.queues.borrow_mut();
+                q.inflight.push_back((a, Some(tx_ca), AckType::Complete));
+                q.inflight_ids.insert(a);
+                q.rx = Some(rx_ca);
+            }
+            assert!(sh.pkt_ack(mk_ack(AckType::Receive, b)).is_ok());
+            assert!(is_ack(&rx_b, AckType::Receive, b));
+            // a's completion must survive
+            let front_alive = {
+                let q = sh.queues.borrow();
+                let e = q.inflight.get(0).unwrap();
+                e.0 == a && e.1.as_ref().map_or(false, |tx| !tx.is_canceled())
+            };
+            assert!(front_alive, "K4: PUBREC of one exactly-once send cancelled the pending completion of another");
+            let ra = sh.release_publish(rel(a));
+            let rb = sh.release_publish(rel(b));
+            assert!(ra.is_ok() && rb.is_ok(), "K4: releasing one exactly-once send consumed the completion of another");
+            assert!(io.frames() == 2 && io.frame_id(0) == a.get() && io.frame_id(1) == b.get());
+            std::mem::forget((rx_b, ra, rb));
+            std::mem::forget(sh);
+        })
+    }
+}
+
+// =============================================================================================
+// the window across a short schedule (C05)
+vharness! {
+    //@ props: C05
+    //@ env: VERIF_MVEC_CAP=1
+    //@ tier: quick
+    //@ functions: v5::shared::MqttShared::{wait_readiness, wait_response, pkt_ack}
+    //@ bounds: send limit 1; schedule: S1 sends; S2 parks on the full window; the peer acknowledges S1 (S2 is released); optionally a NEW sender S3 arrives before the released S2 runs; S2 registers
+    //@ assumes: senders follow the awaiting protocol of sink.rs: wait_readiness, then (when released) register
+    //@ mem: 16  timeout: 1200
+    //@ finding: known K5: admission (`wait_readiness`) compares only the queue length with the limit and does not count senders that were released but have not registered yet, and a released sender does not re-check
+    //@ desc: the number of registered un-acknowledged sends never exceeds the limit along the schedule
+    //@ stubs: yes
+    #[kani::stub(<codec::Codec as Encoder>::encodev, stub_encodev5)]
+    fn sh5_window_race() unwind(5) {
+        vio::with_io(move |io| {
+            let sh = new_shared(io);
+            sh.set_cap(1);
+            let id = |k: u16| num::NonZeroU16::new(k).unwrap();
+            // S1
+            assert!(sh.wait_readiness().is_none());
+            let r1 = sh.wait_response(id(1), AckType::Subscribe);
+            assert!(r1.is_ok());
+            // S2 parks
+            let w2 = sh.wait_readiness();
+            assert!(w2.is_some());
+            // ack of S1 releases S2
+            assert!(sh.pkt_ack(mk_ack(AckType::Subscribe, id(1))).is_ok());
+            assert!(peek_unit(w2.as_ref().unwrap()) == Some(true));
+            // a new sender may arrive before S2's task runs
+            let mut r3 = None;
+            if vk::any_bool() {
+                if sh.wait_readiness().is_none() {
+                    r3 = Some(sh.wait_response(id(3), AckType::Subscribe));
+                }
+            }
+            // S2 runs
+            let r2 = sh.wait_response(id(2), AckType::Subscribe);
+            assert!(r2.is_ok());
+            assert!(sh.queues.borrow().inflight.len() <= 1, "K5: more un-acknowledged sends registered than the send limit");
+            std::mem::forget((r1, r2, r3, w2));
+            std::mem::forget(sh);
+        })
+    }
+}
